@@ -673,6 +673,11 @@ def parse_lifetimes():
          len(re.findall(r"Box::from_raw", nn)) == 1)
     fact("osu: OsuObjects hands out its objects only through iter_mut (Pin) and is_empty reads the length only",
          len(re.findall(r"self\.objects\b", nn)) == 3 and "self.objects.len() == 0" in nn)
+    io = nn.find("osu_objects.iter_mut(), );")
+    rest = nn[io + len("osu_objects.iter_mut(), );"):nn.find("fn increment_combo", io)] if io >= 0 else ""
+    fact("osu: after the references into osu_objects are created it is only moved into the struct as is",
+         io >= 0 and len(re.findall(r"\bosu_objects\b", rest)) == 1
+         and re.search(r"Ok\(Self \{[^{}]*\bdiff_objects, osu_objects, _not_clonable: NotClonable,? \}\)", rest) is not None)
     fact("osu: no assignment to self.osu_objects / self.diff_objects after construction",
          re.search(r"self\.(osu_objects|diff_objects)\s*(=[^=]|\.push|\.clear|\.truncate|\.swap|\.sort|\.retain)", nc) is None)
     fact("osu: OsuGradualDifficulty is not Clone",
@@ -689,6 +694,12 @@ def parse_lifetimes():
          re.search(r"diff_objects:\s*TaikoDifficultyObjects,", nt) is not None)
     fact("taiko: no assignment to / mutation of self.diff_objects after construction",
          re.search(r"self\.diff_objects\s*(=[^=]|\.push|\.clear|\.truncate|\.swap|\.sort|\.retain|\.objects)", nt) is None)
+    nnt = norm(nt)
+    im = nnt.find("let diff_objects_iter = extend_lifetime(diff_objects.iter());")
+    seg = nnt[im:nnt.find("fn extend_lifetime", im)] if im >= 0 else ""
+    fact("taiko: after the 'static iterator is created the vector is moved into the struct as is (no call on it, no rebinding)",
+         re.match(r"^let diff_objects_iter = extend_lifetime\(diff_objects\.iter\(\)\); "
+                  r"Ok\(Self \{[^{}]*\bdifficulty, diff_objects, diff_objects_iter,[^{}]*\}\) \} \} $", seg) is not None)
     fact("taiko: TaikoGradualDifficulty is not Clone",
          re.search(r"impl[^{]*Clone\s+for\s+TaikoGradualDifficulty", nt) is None and
          re.search(r"derive\([^)]*Clone[^)]*\)\s*pub struct TaikoGradualDifficulty", norm(nt)) is None)
